@@ -175,7 +175,7 @@ def _work_inputs(args):
 
 
 def _work_bfs(args):
-    pi, states, seed, base = args
+    pi, states, seed, base, depth = args
     part = _PARTS[pi]
     acc = _Acc()
     succs = []  # (succ_state, parent_index, op)
@@ -187,7 +187,7 @@ def _work_bfs(args):
             except Exception as e:
                 succ, n, outcome, nontriv = None, 1, "harness-exception", None
                 viols = [Viol("harness-exception:" + type(e).__name__, traceback.format_exc(limit=6))]
-            acc.add(base + k, case, (n, outcome, nontriv, viols), seed)
+            acc.add(depth * 10**9 + base + k, case, (n, outcome, nontriv, viols), seed)
             if succ is not None and not viols:
                 succs.append((succ, base + k, op))
     # de-duplicate locally to cut transfer volume
@@ -279,7 +279,7 @@ def _run_bfs(pi, part, tot, pool, seed, log):
         size = (len(expand) + nchunks - 1) // nchunks if expand else 1
         jobs = []
         for c in range(0, len(expand), size):
-            jobs.append((pi, expand[c:c + size], seed, c))
+            jobs.append((pi, expand[c:c + size], seed, c, depth))
         it = pool.imap_unordered(_work_bfs, jobs) if pool else map(_work_bfs, jobs)
         nxt = []
         allsucc = []
